@@ -12,6 +12,8 @@ success; a block is its submission number.  Traces are newest-event-first.
 import Hts.Lemmas.WriterLTSAcc
 import Hts.Lemmas.WriterLTSWitness
 import Hts.Lemmas.WriterLTSOwn
+import Hts.Lemmas.WriterLTSComp
+import Hts.Lemmas.WriterCompose
 namespace Hts.Props.C12
 open Hts.Model.WriterLTS
 
@@ -56,9 +58,9 @@ theorem close_durable (hr : cfg.repaired = true) {tr : List Ev} {m : Nat} (h : R
 /-- Without faults, when everything has come to rest the delivered output is the sequential writer's:
     independent of the schedule, of the completion order of the compressors and of `wc`. -/
 theorem lts_output_deterministic (hr : cfg.repaired = true) (hnf : ∀ i, cfg.fault i = false)
-    (h : Reachable cfg s) (hidle : AllIdle s) :
+    (hcf : ∀ b, cfg.cfault b = false) (h : Reachable cfg s) (hidle : AllIdle s) :
     (s.out, s.eof) = sequentialWriter cfg.script := by
-  obtain ⟨h1, h2⟩ := output_of_idle hr hnf h hidle
+  obtain ⟨h1, h2⟩ := output_of_idle hr hnf hcf h hidle
   simp [sequentialWriter, h1, h2]
 
 /-- `bam.NewWriter` = `Write(header)` (completing `k` blocks), `Flush`, `Wait`: if that `Wait` — the third call to
@@ -73,12 +75,83 @@ theorem bam_header_durable (hr : cfg.repaired = true) {k : Nat} {rest : List Op}
   rw [← hm]
   exact wait_durable_all hr h (by rw [htr]; simp)
 
+/-- The same with compression failures (`cfg.cfault b`: `writeBlock` of block `b` sets `c.err`), still without
+    I/O faults: at rest the delivered blocks are exactly the blocks before the first one whose compression fails
+    (all of them if none fails), and the EOF marker is written iff the script closes the writer and none fails —
+    independent of the schedule, of the completion order and of `wc`. -/
+theorem lts_output_with_compression_failures (hr : cfg.repaired = true) (hnf : ∀ i, cfg.fault i = false)
+    (h : Reachable cfg s) (hidle : AllIdle s) :
+    s.out = List.range (firstFail cfg.cfault (seqBlocks cfg.script false)) ∧
+    s.eof = (hasClose cfg.script &&
+      decide (firstFail cfg.cfault (seqBlocks cfg.script false) = seqBlocks cfg.script false)) :=
+  output_of_idle_cf hr hnf h hidle
+
 /-- Every compressor — its 64 KiB block buffer and its gzip output buffer — has at most one holder among the API
     goroutine (active compressor), the `waiting` channel, the `queue` channel (whose `writeBlock` goroutine fills
     it) and the emitter, in every reachable state of either protocol variant: a block being compressed or written
     is never overwritten by a later `Write`. -/
 theorem compressor_exclusive (h : Reachable cfg s) (c : Nat) : holders c s ≤ 1 :=
   reachable_holders h c
+
+/-! ### durability in data and in bytes (composition with the sequential byte-level writer model)
+
+`Hts.Model.WriterCompose.cfgOf wc c h wops` is the LTS configuration of the CONCRETE script `wops` (payloads):
+abstract script `absScript wops` (each `Write` completes as many blocks as in `Hts.Model.BgzfWriter`, each `Flush`
+finds the active block non-empty iff it is so there), `wc` compressors requested, no I/O faults, compression of
+block `i` failing iff `Member.writeBlock` refuses `(after wops).emitted[i]`, repaired protocol.  Block `i`'s
+payload is `(after wops).emitted[i]`, its bytes `blockBytes c h … i`. -/
+
+open Hts.Model Hts.Model.Member Hts.Model.WriterCompose in
+/-- If the `(j+1)`-th call to return is a `Wait` returning nil (no `Close` among the first `j+1` calls) then, from
+    then on, the first `m` delivered blocks are exactly the blocks the sequential writer has queued after those
+    calls — as payloads and as bytes (`render` of that prefix: the file starts with exactly the sequential
+    writer's output for the calls made so far) — for every `wc`, every interleaving. -/
+theorem wait_durable_bytes (wc : Nat) (c : CodecFns) (h : Header) (wops : List (BgzfWriter.Op Byte)) (j : Nat)
+    (hnc : BgzfWriter.hasClose (wops.take (j + 1)) = false) {tr post mid : List Ev} {m : Nat}
+    (hrun : Run (cfgOf wc c h wops) tr s) (htr : tr = post ++ .ret .wait .ok m :: mid) (hmid : nrets mid = j) :
+    m = (BgzfWriter.after (wops.take (j + 1))).emitted.length ∧ s.out.take m = List.range m ∧
+    (s.out.take m).map (fun i => (BgzfWriter.after wops).emitted.getD i []) = (BgzfWriter.after (wops.take (j + 1))).emitted ∧
+    ((s.out.take m).map (blockBytes c h (BgzfWriter.after wops).emitted)).flatten =
+      (render c h (BgzfWriter.after (wops.take (j + 1))).emitted).1 :=
+  WriterCompose.wait_durable_bytes wc c h wops j hnc hrun htr hmid
+
+open Hts.Model Hts.Model.Member Hts.Model.WriterCompose in
+/-- `Flush` then `Wait` returning nil: the payloads of the delivered blocks recorded by that `Wait` are, concatenated,
+    exactly the data accepted by the calls before the `Flush` — everything written before the Flush is in the file,
+    whatever the block boundaries, `wc` and schedule. -/
+theorem flush_wait_durable_data (wc : Nat) (c : CodecFns) (h : Header) (pre rest : List (BgzfWriter.Op Byte))
+    (hnc : BgzfWriter.hasClose pre = false) {tr post mid : List Ev} {m : Nat}
+    (hrun : Run (cfgOf wc c h (pre ++ .flush :: .wait :: rest)) tr s)
+    (htr : tr = post ++ .ret .wait .ok m :: mid) (hmid : nrets mid = pre.length + 1) :
+    ((s.out.take m).map (fun i => (BgzfWriter.after (pre ++ .flush :: .wait :: rest)).emitted.getD i [])).flatten =
+      BgzfWriter.accepted pre := by
+  have htk : (pre ++ .flush :: .wait :: rest).take (pre.length + 1 + 1) = pre ++ [.flush, .wait] := by
+    have : pre ++ BgzfWriter.Op.flush :: .wait :: rest = (pre ++ [.flush, .wait]) ++ rest := by simp
+    rw [this, List.take_left' (by simp)]
+  have hnc' : BgzfWriter.hasClose ((pre ++ .flush :: .wait :: rest).take (pre.length + 1 + 1)) = false := by
+    rw [htk]
+    have : ∀ (a : List (BgzfWriter.Op Byte)), BgzfWriter.hasClose a = false →
+        BgzfWriter.hasClose (a ++ [.flush, .wait]) = false := by
+      intro a; induction a with
+      | nil => intro _; rfl
+      | cons o a ih => intro hc; cases o <;> simp_all [BgzfWriter.hasClose]
+    exact this pre hnc
+  have := WriterCompose.wait_durable_data wc c h _ (pre.length + 1) hnc' hrun htr hmid
+  rw [htk, after_flush_wait_active pre hnc, List.append_nil, accepted_append_noclose pre _ hnc] at this
+  simpa [BgzfWriter.accepted] using this
+
+open Hts.Model Hts.Model.Member Hts.Model.WriterCompose in
+/-- `bam.NewWriter` = `Write(header)`, `Flush`, `Wait`, for a header of ANY length (also an exact multiple of the
+    block size, where the `Flush` finds nothing to do): if that `Wait` — the third call to return — returns nil,
+    the delivered blocks it records carry exactly the header bytes. -/
+theorem newwriter_header_durable_data (wc : Nat) (c : CodecFns) (h : Header) (hdr : List Byte)
+    (rest : List (BgzfWriter.Op Byte)) {tr post mid : List Ev} {m : Nat}
+    (hrun : Run (cfgOf wc c h (.write hdr :: .flush :: .wait :: rest)) tr s)
+    (htr : tr = post ++ .ret .wait .ok m :: mid) (hmid : nrets mid = 2) :
+    ((s.out.take m).map (fun i => (BgzfWriter.after (.write hdr :: .flush :: .wait :: rest)).emitted.getD i [])).flatten = hdr := by
+  have := flush_wait_durable_data wc c h [.write hdr] rest rfl (tr := tr) (post := post) (mid := mid) (m := m)
+    (by simpa using hrun) htr (by simpa using hmid)
+  simpa [BgzfWriter.accepted] using this
 
 /-! ### non-vacuity: the hypotheses are satisfiable and the conclusions are not trivial -/
 
